@@ -1171,7 +1171,9 @@ def io_comprehensions_to_loops(tree):
                 a = blk[i]
                 if isinstance(a, ast.Assign) and len(a.targets) == 1 and isinstance(a.targets[0], (ast.Name, ast.Attribute)) \
                         and isinstance(a.value, ast.ListComp) and len(a.value.generators) == 1 \
-                        and not a.value.generators[0].ifs and _does_io(a.value.elt) \
+                        and not a.value.generators[0].ifs \
+                        and (_does_io(a.value.elt) or any(isinstance(y, ast.Call) and _call_name(y) in ("np.unique", "numpy.unique")
+                                                          for y in ast.walk(a.value.generators[0].iter))) \
                         and not _does_io(a.value.generators[0].iter):
                     g = a.value.generators[0]
                     tgt = a.targets[0]
